@@ -156,7 +156,7 @@ def drift_consumers(ctx, prop):
             for msg in orc(ctx, data, k, tree, out) or []:
                 ctx.violation("drift-directed scan", [k, data], msg)
                 break
-        if whole and len(data) < 1500:
+        if whole and len(data) < 4000:
             pe_t, xor_t = rec.tables()
             args.append([k, data, pe_t, xor_t])
             outs.append(out)
